@@ -252,5 +252,5 @@ def check(prog, run):
             run.bad(rule, key, "in %s: `%s as %s` (from %s) can lose value bits: no interval or dominating guard keeps the operand inside [%d, %d]" % (_kname(p), sym.show(e)[:70], to, frm, rt[0], rt[1]), loc)
     run.extra["inventory"] = counts
     run.extra["discharge"] = how_counts
-    run.floor("R1", counts["R1"], 40, "narrowing integer casts")
-    run.floor("R2", counts["R2"], 3, "float->int casts")
+    run.floor("R1", counts["R1"], 25, "narrowing integer casts")
+    run.floor("R2", counts["R2"], 1, "float->int casts")
